@@ -1,4 +1,5 @@
 import GeoVerif.Model.Survey
+import GeoVerif.Model.Depths
 import Mathlib.Tactic.Ring
 import Mathlib.Tactic.Linarith
 import Mathlib.Tactic.FieldSimp
@@ -193,3 +194,246 @@ theorem sort_cells_coords {α} [Inhabited α] (σ : List Nat) (xs : List α) (v 
   simp [applyPerm, List.getD_eq_getElem?_getD, List.getElem?_map, List.getElem?_eq_getElem hlt]
 
 end GeoVerif.Survey
+
+/-!
+# C18, second half — values stay attached to their depth when logs are added
+
+Model `Depths` (Model/Depths.lean): `validate_depth_data` + `match_values`/`merge_arrays` + `sort_depths` for holes that
+carry depth logs.  `addCall_attached`: after one `add_data` call with any number of logs, every sample of every log sits
+at a vertex whose depth is the sample's; `addCall_keeps`: what was attached before still is; `sortBy_att`: for ANY
+permutation of the vertices, not only the sorting one.
+-/
+namespace GeoVerif.Depths
+
+theorem place_length (eps : Rat) (depth : List Rat) : ∀ (s : List (Rat × Option Rat)) (acc : Col),
+    (place eps depth s acc).1.length = acc.length
+  | [], acc => rfl
+  | (b, v) :: rest, acc => by
+    simp only [place]
+    split
+    · simp [place_length eps depth rest, setAt]
+    · simp [place_length eps depth rest]
+
+theorem place_unmatched (eps : Rat) (depth : List Rat) : ∀ (s : List (Rat × Option Rat)) (acc : Col),
+    (place eps depth s acc).2 = s.filter fun x => (matchOne eps depth x.1).isNone
+  | [], acc => rfl
+  | (b, v) :: rest, acc => by
+    simp only [place]
+    split
+    · rename_i i h
+      simp [place_unmatched eps depth rest, h]
+    · rename_i h
+      simp [place_unmatched eps depth rest, h]
+
+/-- a position no sample is matched to keeps what it held -/
+theorem place_other (eps : Rat) (depth : List Rat) (i : Nat) : ∀ (s : List (Rat × Option Rat)) (acc : Col),
+    (∀ x ∈ s, matchOne eps depth x.1 ≠ some i) → (place eps depth s acc).1.getD i none = acc.getD i none
+  | [], acc, _ => rfl
+  | (b, v) :: rest, acc, h => by
+    have hr : ∀ x ∈ rest, matchOne eps depth x.1 ≠ some i := fun x hx => h x (List.mem_cons_of_mem _ hx)
+    have hb : matchOne eps depth b ≠ some i := h (b, v) (List.mem_cons_self ..)
+    simp only [place]
+    split
+    · rename_i k hk
+      rw [place_other eps depth i rest _ hr]
+      have : k ≠ i := fun e => hb (by rw [hk, e])
+      simp [setAt, List.getD_eq_getElem?_getD, List.getElem?_set, this]
+    · rw [place_other eps depth i rest _ hr]
+
+/-- the sample matched to a vertex that no later sample is matched to is what the column holds there -/
+theorem place_matched (eps : Rat) (depth : List Rat) (i : Nat) : ∀ (s : List (Rat × Option Rat)) (acc : Col) (b : Rat) (v : Option Rat),
+    i < acc.length → (b, v) ∈ s → matchOne eps depth b = some i →
+    (∀ x ∈ s, x ≠ (b, v) → matchOne eps depth x.1 ≠ some i) →
+    (place eps depth s acc).1.getD i none = v
+  | [], _, _, _, _, hm, _, _ => by simp at hm
+  | (b', v') :: rest, acc, b, v, hi, hm, hmatch, huniq => by
+    simp only [place]
+    by_cases heq : (b', v') = (b, v)
+    · cases heq
+      simp only [hmatch]
+      by_cases hin : (b', v') ∈ rest
+      · exact place_matched eps depth i rest _ b' v' (by simpa [setAt] using hi) hin hmatch
+          (fun x hx hne => huniq x (List.mem_cons_of_mem _ hx) hne)
+      · rw [place_other eps depth i rest _ (fun x hx => huniq x (List.mem_cons_of_mem _ hx) (fun e => hin (e ▸ hx)))]
+        simp [setAt, List.getD_eq_getElem?_getD, List.getElem?_set, hi]
+    · have hin : (b, v) ∈ rest := by
+        rcases List.mem_cons.mp hm with h | h
+        · exact absurd h.symm heq
+        · exact h
+      have hne : matchOne eps depth b' ≠ some i := huniq (b', v') (List.mem_cons_self ..) heq
+      split
+      · rename_i k hk
+        exact place_matched eps depth i rest _ b v (by simpa [setAt] using hi) hin hmatch
+          (fun x hx hne => huniq x (List.mem_cons_of_mem _ hx) hne)
+      · exact place_matched eps depth i rest _ b v hi hin hmatch
+          (fun x hx hne => huniq x (List.mem_cons_of_mem _ hx) hne)
+
+theorem absR_zero : absR 0 = 0 := by decide
+
+theorem matchOne_some (eps : Rat) (depth : List Rat) (b : Rat) (i : Nat) (h : matchOne eps depth b = some i) :
+    i < depth.length ∧ absR (depth.getD i 0 - b) < eps := by
+  unfold matchOne at h
+  obtain ⟨hi, hp⟩ := List.findIdx?_eq_some_iff_getElem.mp h
+  refine ⟨hi, ?_⟩
+  have := hp.1
+  simpa [List.getD_eq_getElem?_getD, List.getElem?_eq_getElem hi] using this
+
+/-- no two samples of a log are matched to the same vertex -/
+def NoClash (eps : Rat) (depth : List Rat) (s : List (Rat × Option Rat)) : Prop :=
+  ∀ x ∈ s, ∀ y ∈ s, x ≠ y → ∀ i, matchOne eps depth x.1 = some i → matchOne eps depth y.1 ≠ some i
+
+/-- `(b, v)` is attached: some vertex has a depth within `eps` of `b` and the column holds `v` there -/
+def Att (eps : Rat) (depth : List Rat) (col : Col) (b : Rat) (v : Option Rat) : Prop :=
+  ∃ k, k < depth.length ∧ absR (depth.getD k 0 - b) < eps ∧ (pad depth.length col).getD k none = v
+
+theorem pad_getD (n : Nat) (c : Col) (k : Nat) : (pad n c).getD k none = c.getD k none := by
+  simp only [pad, List.getD_eq_getElem?_getD, List.getElem?_append]
+  split
+  · rfl
+  · rename_i h
+    simp only [List.getElem?_replicate]
+    split <;> simp [List.getElem?_eq_none (Nat.le_of_not_lt h)]
+
+/-- **every sample of a log is attached to a vertex at its depth** by `validate_depth_data` -/
+theorem addLog_attached (eps : Rat) (heps : 0 < eps) (h : Hole) (name : String) (s : List (Rat × Option Rat))
+    (hc : NoClash eps h.depth s) (b : Rat) (v : Option Rat) (hm : (b, v) ∈ s) :
+    ∃ col, (addLog eps h name s).cols = h.cols ++ [(name, col)] ∧ Att eps (addLog eps h name s).depth col b v := by
+  have hun := place_unmatched eps h.depth s (List.replicate h.depth.length none)
+  have hlen := place_length eps h.depth s (List.replicate h.depth.length none)
+  simp only [List.length_replicate] at hlen
+  refine ⟨_, rfl, ?_⟩
+  simp only [addLog, Att, pad_getD]
+  cases hmo : matchOne eps h.depth b with
+  | some i =>
+    obtain ⟨hi, hd⟩ := matchOne_some eps h.depth b i hmo
+    refine ⟨i, by simp; omega, ?_, ?_⟩
+    · simpa [List.getD_eq_getElem?_getD, List.getElem?_append, hi] using hd
+    · have := place_matched eps h.depth i s (List.replicate h.depth.length none) b v (by simpa using hi) hm hmo
+        (fun x hx hne => hc (b, v) hm x hx (Ne.symm hne) i hmo |> fun f => f)
+      simpa [List.getD_eq_getElem?_getD, List.getElem?_append, hlen, hi] using this
+  | none =>
+    have hin : (b, v) ∈ (place eps h.depth s (List.replicate h.depth.length none)).2 := by
+      rw [hun]; simp [hm, hmo]
+    obtain ⟨j, hj, hjv⟩ := List.getElem_of_mem hin
+    refine ⟨h.depth.length + j, by simp; omega, ?_, ?_⟩
+    · have hz : b - b = 0 := by grind
+      simp [List.getD_eq_getElem?_getD, List.getElem?_append, hj, hjv, hz, absR_zero, heps]
+    · simp [List.getD_eq_getElem?_getD, List.getElem?_append, hlen, hj, hjv]
+
+/-- what was attached before stays attached when another log is added (old vertices keep their depth, old columns their values) -/
+theorem addLog_keeps (eps : Rat) (h : Hole) (name : String) (s : List (Rat × Option Rat)) (col : Col) (b : Rat) (v : Option Rat)
+    (ha : Att eps h.depth col b v) : Att eps (addLog eps h name s).depth col b v := by
+  obtain ⟨k, hk, hd, hv⟩ := ha
+  refine ⟨k, by simp [addLog]; omega, ?_, ?_⟩
+  · simpa [addLog, List.getD_eq_getElem?_getD, List.getElem?_append, hk] using hd
+  · rw [pad_getD] at hv ⊢; exact hv
+
+theorem applyPerm_getD {α} (σ : List Nat) (xs : List α) (d : α) (k : Nat) (hk : k < σ.length) :
+    (applyPerm σ xs d).getD k d = xs.getD (σ.getD k 0) d := by
+  simp [applyPerm, List.getD_eq_getElem?_getD, List.getElem?_map, List.getElem?_eq_getElem hk]
+
+/-- **sorting keeps every value at its depth**: `sort_depths` applies one permutation to the record and to every column -/
+theorem sortBy_att (eps : Rat) (σ : List Nat) (depth : List Rat) (col : Col) (b : Rat) (v : Option Rat)
+    (hσ : σ.Perm (List.range depth.length)) (ha : Att eps depth col b v) :
+    Att eps (applyPerm σ depth 0) (applyPerm σ (pad depth.length col) none) b v := by
+  obtain ⟨k, hk, hd, hv⟩ := ha
+  have hmem : k ∈ σ := hσ.mem_iff.mpr (List.mem_range.mpr hk)
+  obtain ⟨j, hj, hjk⟩ := List.getElem_of_mem hmem
+  have hlen : σ.length = depth.length := by simpa using hσ.length_eq
+  have hσj : σ.getD j 0 = k := by simp [List.getD_eq_getElem?_getD, List.getElem?_eq_getElem hj, hjk]
+  refine ⟨j, by simp [applyPerm]; exact hj, ?_, ?_⟩
+  · rw [applyPerm_getD σ depth 0 j hj, hσj]; exact hd
+  · rw [pad_getD, applyPerm_getD σ _ none j hj, hσj]; exact hv
+
+theorem insertBy_perm (depth : List Rat) (i : Nat) : ∀ l : List Nat, (insertBy depth i l).Perm (i :: l)
+  | [] => List.Perm.refl _
+  | j :: js => by
+    simp only [insertBy]
+    split
+    · exact List.Perm.refl _
+    · exact ((insertBy_perm depth i js).cons j).trans (List.Perm.swap i j js)
+
+theorem argsort_perm (depth : List Rat) : (argsort depth).Perm (List.range depth.length) := by
+  unfold argsort
+  generalize List.range depth.length = l
+  induction l with
+  | nil => exact List.Perm.refl _
+  | cons x xs ih => exact (insertBy_perm depth x _).trans (ih.cons x)
+
+abbrev Log := String × List (Rat × Option Rat)
+
+def addLogs (eps : Rat) (h : Hole) (logs : List Log) : Hole := logs.foldl (fun s l => addLog eps s l.1 l.2) h
+
+/-- the logs of one call can be taken one after the other: within a log no two samples go to the same vertex -/
+def CallOk (eps : Rat) : Hole → List Log → Prop
+  | _, [] => True
+  | h, l :: rest => NoClash eps h.depth l.2 ∧ CallOk eps (addLog eps h l.1 l.2) rest
+
+theorem addLogs_keeps (eps : Rat) : ∀ (logs : List Log) (h : Hole) (name : String) (col : Col) (b : Rat) (v : Option Rat),
+    (name, col) ∈ h.cols → Att eps h.depth col b v →
+    (name, col) ∈ (addLogs eps h logs).cols ∧ Att eps (addLogs eps h logs).depth col b v
+  | [], _, _, _, _, _, hm, ha => ⟨hm, ha⟩
+  | l :: rest, h, name, col, b, v, hm, ha => by
+    simp only [addLogs, List.foldl_cons]
+    exact addLogs_keeps eps rest (addLog eps h l.1 l.2) name col b v
+      (by simp only [addLog, List.mem_append]; left; exact hm) (addLog_keeps eps h l.1 l.2 col b v ha)
+
+theorem addLogs_attached (eps : Rat) (heps : 0 < eps) : ∀ (logs : List Log) (h : Hole), CallOk eps h logs →
+    ∀ l ∈ logs, ∀ b v, (b, v) ∈ l.2 →
+    ∃ col, (l.1, col) ∈ (addLogs eps h logs).cols ∧ Att eps (addLogs eps h logs).depth col b v
+  | [], _, _, l, hl, _, _, _ => by simp at hl
+  | l0 :: rest, h, hok, l, hl, b, v, hm => by
+    obtain ⟨hc, hrest⟩ := hok
+    simp only [addLogs, List.foldl_cons]
+    rcases List.mem_cons.mp hl with rfl | hl
+    · obtain ⟨col, hcols, ha⟩ := addLog_attached eps heps h l.1 l.2 hc b v hm
+      exact ⟨col, addLogs_keeps eps rest _ l.1 col b v (by rw [hcols]; simp) ha⟩
+    · exact addLogs_attached eps heps rest _ hrest l hl b v hm
+
+/-- **C18, data additions.**  After one `add_data` call with any number of depth logs (in any order, sampled at new or at
+    existing depths), every sample of every log sits at a vertex whose depth is the sample's (within the collocation
+    distance) — through the matching, the appending of new vertices and the final sort. -/
+theorem addCall_attached (eps : Rat) (heps : 0 < eps) (h : Hole) (logs : List Log) (hok : CallOk eps h logs)
+    (l : Log) (hl : l ∈ logs) (b : Rat) (v : Option Rat) (hm : (b, v) ∈ l.2) :
+    ∃ col, (l.1, col) ∈ (addCall eps h logs).cols ∧ Att eps (addCall eps h logs).depth col b v := by
+  obtain ⟨col, hmem, ha⟩ := addLogs_attached eps heps logs h hok l hl b v hm
+  refine ⟨applyPerm (argsort (addLogs eps h logs).depth) (pad (addLogs eps h logs).depth.length col) none, ?_, ?_⟩
+  · simp only [addCall, sortDepths, sortBy, List.mem_map]
+    exact ⟨(l.1, col), hmem, rfl⟩
+  · exact sortBy_att eps _ _ col b v (argsort_perm _) ha
+
+/-- what the hole held before the call is still attached after it -/
+theorem addCall_keeps (eps : Rat) (h : Hole) (logs : List Log) (name : String) (col : Col) (b : Rat) (v : Option Rat)
+    (hm : (name, col) ∈ h.cols) (ha : Att eps h.depth col b v) :
+    ∃ col', (name, col') ∈ (addCall eps h logs).cols ∧ Att eps (addCall eps h logs).depth col' b v := by
+  obtain ⟨hmem, ha'⟩ := addLogs_keeps eps logs h name col b v hm ha
+  refine ⟨applyPerm (argsort (addLogs eps h logs).depth) (pad (addLogs eps h logs).depth.length col) none, ?_, ?_⟩
+  · simp only [addCall, sortDepths, sortBy, List.mem_map]
+    exact ⟨(name, col), hmem, rfl⟩
+  · exact sortBy_att eps _ _ col b v (argsort_perm _) ha'
+
+/-! ### non-vacuity: a call with two logs, the second sampled at an existing depth and given in descending order -/
+def exHole : Hole := { depth := [10, 20], cols := [("A", [some 1, some 2])] }
+def exLogs : List Log := [("B", [(30, some 7), (5, some 8)]), ("C", [(30, some 9), (10, none), (15, some 4)])]
+/-- executable form of `NoClash` -/
+def noClashB (eps : Rat) (depth : List Rat) (s : List (Rat × Option Rat)) : Bool :=
+  s.all fun x => s.all fun y => x == y || (match matchOne eps depth x.1 with
+    | some i => matchOne eps depth y.1 != some i
+    | none => true)
+
+theorem noClash_of_bool (eps : Rat) (depth : List Rat) (s : List (Rat × Option Rat)) (h : noClashB eps depth s = true) :
+    NoClash eps depth s := by
+  intro x hx y hy hne i hi
+  have := List.all_eq_true.mp (List.all_eq_true.mp h x hx) y hy
+  simp only [hi, Bool.or_eq_true, beq_iff_eq, bne_iff_ne, ne_eq] at this
+  rcases this with h | h
+  · exact absurd h hne
+  · exact h
+
+example : CallOk (1/10000) exHole exLogs :=
+  ⟨noClash_of_bool _ _ _ (by decide +kernel), noClash_of_bool _ _ _ (by decide +kernel), trivial⟩
+example : (addCall (1/10000) exHole exLogs).depth = [5, 10, 15, 20, 30] := by decide +kernel
+example : (addCall (1/10000) exHole exLogs).cols.lookup "C" = some [none, none, some 4, none, some 9] := by decide +kernel
+example : (addCall (1/10000) exHole exLogs).cols.lookup "A" = some [none, some 1, none, some 2, none] := by decide +kernel
+
+end GeoVerif.Depths
